@@ -760,6 +760,79 @@ inline std::string applySweep(Node &root, const SweepOp &op)
     return "";
 }
 
+// ------------------------------------------------------------------------------------------------ repeated complex children
+// Catalogue: for every element name occurring anywhere in the corpus, its richest distinct instances (most descendants first). It
+// is the per-kind stock of realistic children (Jingle contents with description/payload-type/transport/candidate, pubsub items, data
+// form fields with options, MIX/MAM/stanza-id elements, ...) from which documents with TWO OR THREE RICH SIBLINGS of one child kind
+// are generated: every (parent element, child kind) of every document gets its children of that kind replaced by 2 and by 3
+// catalogue instances, each with its own sub-children, re-namespaced into the namespace the replaced children had.
+inline long countElems(const Node &n) { if (n.isText) return 0; long c = 1; for (auto &k : n.kids) c += countElems(k); return c; }
+struct Catalogue {
+    std::map<QString, std::vector<const Node *>> byName;
+    void build(const std::vector<Node> &nodes, size_t perName = 5)
+    {
+        std::map<QString, std::vector<std::pair<long, const Node *>>> all;
+        for (auto &n : nodes) if (!n.local.isEmpty()) { long c = countElems(n); if (c >= 2) all[n.local].push_back({ c, &n }); }
+        for (auto &kv : all) {
+            std::stable_sort(kv.second.begin(), kv.second.end(), [](auto &a, auto &b) { return a.first > b.first; });
+            auto &out = byName[kv.first];
+            long last = -1;
+            for (auto &e : kv.second) { if (e.first == last) continue; last = e.first; out.push_back(e.second); if (out.size() >= perName) break; }
+        }
+    }
+};
+struct RichOp { std::vector<int> parent; QString child; int count; };
+inline std::vector<RichOp> enumerateRich(Node &root, const Catalogue &cat)
+{
+    std::vector<RichOp> ops;
+    std::vector<std::vector<int>> elems; std::vector<int> cur;
+    collectElems(root, cur, elems);
+    for (auto &p : elems) {
+        Node *n = resolve(root, p);
+        QStringList seen;
+        for (auto &k : n->kids) {
+            if (k.isText || seen.contains(k.local)) continue;
+            seen << k.local;
+            auto it = cat.byName.find(k.local);
+            if (it == cat.byName.end() || it->second.empty()) continue;
+            ops.push_back({ p, k.local, 2 });
+            ops.push_back({ p, k.local, 3 });
+        }
+    }
+    return ops;
+}
+inline void renamespace(Node &x, const QString &from, const QString &to)
+{
+    if (x.isText) return;
+    if (x.ns == from && x.prefix.isEmpty()) x.ns = to;
+    for (auto &k : x.kids) renamespace(k, from, to);
+}
+inline std::string applyRich(Node &root, const RichOp &op, const Catalogue &cat, unsigned rot = 0)
+{
+    Node *n = resolve(root, op.parent);
+    auto it = cat.byName.find(op.child);
+    if (!n || it == cat.byName.end() || it->second.empty()) return "";
+    QString targetNs; int first = -1;
+    for (size_t i = 0; i < n->kids.size(); i++) if (!n->kids[i].isText && n->kids[i].local == op.child) { if (first < 0) { first = int(i); targetNs = n->kids[i].ns; } }
+    if (first < 0) return "";
+    std::vector<Node> repl;
+    for (int c = 0; c < op.count; c++) {
+        Node g = *it->second[(rot + unsigned(c)) % it->second.size()];
+        QString from = g.ns;
+        renamespace(g, from, targetNs);
+        g.ns = targetNs; g.prefix.clear();
+        repl.push_back(g);
+    }
+    std::vector<Node> kids;
+    for (size_t i = 0; i < n->kids.size(); i++) {
+        if (int(i) == first) for (auto &g : repl) kids.push_back(g);
+        if (!n->kids[i].isText && n->kids[i].local == op.child) continue;
+        kids.push_back(n->kids[i]);
+    }
+    n->kids = kids;
+    return "rich-siblings@" + pathStr(op.parent) + "<" + op.child.toStdString() + ">x" + std::to_string(op.count);
+}
+
 // ------------------------------------------------------------------------------------------------ fork pool
 struct Status {               // one per worker slot, lives in MAP_SHARED memory: survives the death of the child
     volatile int item;        // index of the work item inside the batch
